@@ -189,7 +189,9 @@ def run(case, out):
                     out.lines += b.used
                 except BudgetExceeded:
                     out.lines += b.used
-                    out.fail("recursive_descent:no-termination", word=list(w), left=left, budget=RD_BUDGET)
+                    # termination of the backtracking search is not what C15 states: a search that is
+                    # merely slow (useless symbols blow it up) is inconclusive, never a verdict
+                    out.probe("recursive_descent_budget_exhausted_inconclusive")
                     continue
                 out.ops += 1
                 if t == "rec":
